@@ -30,8 +30,8 @@ TIERS = {
         "thorough": dict(worlds=216, sets=100, miri_worlds=24, miri_sets=3, valgrind_worlds=24, valgrind_sets=4, big=100000),
     },
     "resources": {
-        "quick": dict(worlds=8, sets=50, miri_worlds=8, miri_sets=6, valgrind_worlds=0, valgrind_sets=0, big=0),
-        "thorough": dict(worlds=96, sets=300, miri_worlds=48, miri_sets=20, valgrind_worlds=0, valgrind_sets=0, big=0),
+        "quick": dict(worlds=8, sets=50, miri_worlds=3, miri_sets=2, valgrind_worlds=0, valgrind_sets=0, big=0),
+        "thorough": dict(worlds=96, sets=300, miri_worlds=16, miri_sets=6, valgrind_worlds=8, valgrind_sets=20, big=0),
     },
 }
 
